@@ -2,7 +2,7 @@
    Only statements, each closed by [exact], followed by Print Assumptions. *)
 From Coq Require Import List ZArith Reals.
 From Coquelicot Require Import Coquelicot.
-From EPG Require Import Scalar QI State Ops Diff DiffLemmas DiffExact DiffIndep CInst Transition Evolution CDeriv CoefT CoefE.
+From EPG Require Import Scalar QI Dual State Ops Diff DiffLemmas DiffExact DiffIndep DiffNonvac CInst Transition Evolution CDeriv CoefT CoefE.
 Import ListNotations.
 
 (* (1) what the bookkeeping computes: a lookup in the new order1 dictionary, for ANY operator
@@ -78,3 +78,27 @@ Theorem C02_jacobian_refuted_spoiler :
     jacobian (drun prog (dinit (@init QIops (qr 1 1)))) [v] <> [qi0].
 Proof. exact spoiler_keeps_partials. Qed.
 Print Assumptions C02_jacobian_refuted_spoiler.
+
+(* non-vacuity of (2)/(3): over the dual numbers a + a' x (a scalar ring) the Euler operator is a
+   non-trivial derivation; an operator with arrays a + a' x and declared derivative a' x meets instr_ok,
+   and on the executed instance the Jacobian entry it yields is non-zero *)
+Theorem C02_derivation_exists (S : ScalOps) (L : ScalLaws S) :
+  ScalLaws (DualOps S) /\
+  (forall x y, dual_dv S (@kadd (DualOps S) x y) = @kadd (DualOps S) (dual_dv S x) (dual_dv S y)) /\
+  (forall x y, dual_dv S (@kmul (DualOps S) x y) =
+               @kadd (DualOps S) (@kmul (DualOps S) (dual_dv S x) y) (@kmul (DualOps S) x (dual_dv S y))).
+Proof. exact (conj (DualLaws S L) (conj (dual_dv_add S L) (dual_dv_mul S L))). Qed.
+Print Assumptions C02_derivation_exists.
+
+Example C02_nonvacuous :
+  let a  := @mk3 QIops (qi 1 2 1 2) (qi 1 2 (-1) 2) (qr 1 2) in
+  let a' := @mk3 QIops (qi 1 1 0 1) (qi 1 1 0 1) (qr (-1) 2) in
+  let b  := @mk3 QIops (qr 0 1) (qr 0 1) (qr 1 2) in
+  let b' := @mk3 QIops (qr 0 1) (qr 0 1) (qr 1 4) in
+  let m := @mkM QIops (@mk3 QIops (qr 1 2) (qr 1 2) (qi 0 1 (-1) 1)) (@mk3 QIops (qr 1 2) (qr 1 2) (qi 0 1 1 1))
+                      (@mk3 QIops (qi 0 1 (-1) 2) (qi 0 1 1 2) (qr 0 1)) in
+  let prog := [DOp (nv_const QIops m); DOp (nv_op QIops a a' b b')] in
+  List.Forall (instr_ok (DualOps QIops) (dual_dv QIops) 0%nat) prog /\
+  jacobian (drun prog (dinit (@init (DualOps QIops) ((qr 1 1, qi0) : DualOps QIops)))) [0%nat]
+    <> [@k0 (DualOps QIops)].
+Proof. exact nv_jacobian_nonzero. Qed.
